@@ -20,6 +20,8 @@ struct Obs {
     events: Mutex<Vec<Value>>,
 }
 
+static TRACE: Mutex<Vec<Value>> = Mutex::new(Vec::new());
+
 fn tasks_of(engine: &acts::Engine, pid: &str) -> Vec<Value> {
     let q = acts::ExecutorQuery::new().with_query("pid", pid).with_count(10000);
     let mut out = Vec::new();
@@ -35,10 +37,16 @@ fn tasks_of(engine: &acts::Engine, pid: &str) -> Vec<Value> {
 }
 
 async fn settle(engine: &acts::Engine, obs: &Arc<Obs>, pids: &[String]) {
+    // quiescence: the in-flight counter of the verif hooks is 0 on three consecutive polls and nothing
+    // observable changed meanwhile
     let mut last = String::new();
     let mut stable = 0;
-    for _ in 0..400 {
-        tokio::time::sleep(Duration::from_millis(15)).await;
+    for _ in 0..2000 {
+        tokio::time::sleep(Duration::from_millis(3)).await;
+        if acts::verif::in_flight() != 0 {
+            stable = 0;
+            continue;
+        }
         let mut sig = format!("{}:{}", obs.messages.lock().unwrap().len(), obs.events.lock().unwrap().len());
         for p in pids {
             for t in tasks_of(engine, p) {
@@ -47,7 +55,7 @@ async fn settle(engine: &acts::Engine, obs: &Arc<Obs>, pids: &[String]) {
         }
         if sig == last {
             stable += 1;
-            if stable >= 8 {
+            if stable >= 3 {
                 return;
             }
         } else {
@@ -87,6 +95,9 @@ async fn run(sc: Value) {
     let engine = EngineBuilder::new().set_config_source(&cfg_path).build().await.unwrap().start();
     let _ = std::fs::remove_dir_all(&dir);
 
+    acts::verif::set_trace(|pid, tid, how, old, new| {
+        TRACE.lock().unwrap().push(json!({"pid": pid, "tid": tid, "how": how, "old": old, "new": new}));
+    });
     let obs = Arc::new(Obs { messages: Mutex::new(Vec::new()), events: Mutex::new(Vec::new()) });
     let chan = engine.channel_with_options(&ChannelOptions::default());
     {
@@ -116,6 +127,7 @@ async fn run(sc: Value) {
         results.push(json!({"op": "deploy", "ok": r.is_ok(), "err": r.err().map(|e| e.to_string())}));
     }
     let mut pids: Vec<String> = Vec::new();
+    let mut snapshots: Vec<Value> = Vec::new();
     for st in sc["steps"].as_array().unwrap_or(&vec![]) {
         let op = st["op"].as_str().unwrap_or("");
         match op {
@@ -137,6 +149,11 @@ async fn run(sc: Value) {
                 let tasks = tasks_of(&engine, &pid);
                 let tid = if let Some(t) = st["tid"].as_str() {
                     t.to_string()
+                } else if let Some(di) = st["dyn_index"].as_u64() {
+                    // the di-th task (creation order) whose node id is not a node of the deployed model
+                    let known: Vec<String> = sc["known_nids"].as_array().map(|a| a.iter().filter_map(|x| x.as_str().map(|s| s.to_string())).collect()).unwrap_or_default();
+                    tasks.iter().filter(|t| !known.iter().any(|k| t["nid"] == k.as_str())).nth(di as usize)
+                        .map(|t| t["tid"].as_str().unwrap().to_string()).unwrap_or("missing".to_string())
                 } else {
                     tasks.iter().filter(|t| t["nid"] == nid).nth(occ).map(|t| t["tid"].as_str().unwrap().to_string()).unwrap_or("missing".to_string())
                 };
@@ -181,16 +198,64 @@ async fn run(sc: Value) {
                     }
                 }
             }
+            "tick" => {
+                if let Some(off) = st["clock_offset"].as_i64() {
+                    acts::verif::set_clock_offset(off);
+                }
+                acts::verif::tick(&engine);
+                results.push(json!({"op": "tick"}));
+            }
+            "clock" => {
+                acts::verif::set_clock_offset(st["offset"].as_i64().unwrap_or(0));
+            }
+            "uncache" => {
+                let pi = st["pid_index"].as_u64().unwrap_or(0) as usize;
+                if let Some(pid) = pids.get(pi) {
+                    acts::verif::uncache(&engine, pid);
+                }
+                results.push(json!({"op": "uncache"}));
+            }
+            "ack" => {
+                let idx = st["message_index"].as_u64().unwrap_or(0) as usize;
+                let id = obs.messages.lock().unwrap().get(idx).map(|m| m["id"].as_str().unwrap_or("").to_string());
+                if let Some(id) = id {
+                    let r = engine.executor().msg().ack(&id);
+                    results.push(json!({"op": "ack", "ok": r.is_ok()}));
+                }
+            }
+            "redo" => {
+                let r = engine.executor().msg().redo();
+                results.push(json!({"op": "redo", "ok": r.is_ok()}));
+            }
             _ => {}
         }
         settle(&engine, &obs, &pids).await;
+        let mut ps = Vec::new();
+        for p in &pids {
+            let info = engine.executor().proc().get(p);
+            ps.push(json!({"pid": p, "state": info.as_ref().map(|i| i.state.clone()).unwrap_or("missing".to_string()), "tasks": tasks_of(&engine, p)}));
+        }
+        snapshots.push(json!({"procs": ps, "nmsg": obs.messages.lock().unwrap().len(), "nevents": obs.events.lock().unwrap().len(),
+            "ntrace": TRACE.lock().unwrap().len()}));
     }
     let mut procs = Vec::new();
     for p in &pids {
         let info = engine.executor().proc().get(p);
         procs.push(json!({"pid": p, "state": info.as_ref().map(|i| i.state.clone()).unwrap_or("missing".to_string()), "tasks": tasks_of(&engine, p)}));
     }
-    let out = json!({"procs": procs, "messages": *obs.messages.lock().unwrap(), "events": *obs.events.lock().unwrap(), "results": results});
+    let mut live = Vec::new();
+    for p in &pids {
+        live.push(acts::verif::live_dump(&engine, p).unwrap_or(Value::Null));
+    }
+    let mut stored_msgs = Vec::new();
+    if let Ok(page) = acts::verif::messages(&engine).query(&acts::query::Query::new()) {
+        for m in page.rows {
+            stored_msgs.push(json!({"id": m.id, "pid": m.pid, "tid": m.tid, "status": m.status.to_string(), "retry_times": m.retry_times,
+                "create_time": m.create_time, "update_time": m.update_time}));
+        }
+    }
+    let out = json!({"procs": procs, "messages": *obs.messages.lock().unwrap(), "events": *obs.events.lock().unwrap(), "results": results,
+        "trace": *TRACE.lock().unwrap(), "snapshots": snapshots, "live": live, "stored_messages": stored_msgs});
     println!("{}", out);
     std::process::exit(0);
 }
